@@ -308,4 +308,442 @@ Section Pauli.
       rewrite (mget_mul_smat K SR N _ L a b HL Ha Hb). ring.
     Qed.
   End Basis2.
+
+  (* ================= the Pauli-Liouville and the chi matrix ACT as the channel (every n, ordering, order) *)
+  Notation lsum := (lsum K).
+
+  Lemma length_mvmul M v : length (mvmul K M v) = length M.
+  Proof. unfold mvmul. apply map_length. Qed.
+
+  Lemma tab_S_cons {A} m (f : nat -> A) : tab (S m) f = f 0 :: tab m (fun a => f (S a)).
+  Proof. unfold tab. cbn [seq map]. f_equal. rewrite <- seq_shift, map_map. reflexivity. Qed.
+
+  Lemma lsum_combine_tab' {A} (g : T * A -> T) : forall (cs : list T) (f : nat -> A),
+    lsum (map g (combine cs (tab (length cs) f))) = bsum (length cs) (fun a => g (nth a cs T0, f a)).
+  Proof.
+    induction cs as [|x cs IH]; intros f; [reflexivity|].
+    cbn [length]. rewrite tab_S_cons. cbn [combine map Alg.lsum]. rewrite (bsum_shift K SR). cbn [nth].
+    f_equal. apply IH.
+  Qed.
+  Lemma lsum_combine_tab {A} (cs : list T) (N : nat) (f : nat -> A) (g : T * A -> T) : length cs = N ->
+    lsum (map g (combine cs (tab N f))) = bsum N (fun a => g (nth a cs T0, f a)).
+  Proof. intros <-. apply lsum_combine_tab'. Qed.
+
+  Section Acts.
+    Variables (o : vorder) (n : nat).
+    Hypothesis Ho : odim o = 2 ^ n.
+    Let N := 4 ^ n.
+    Let d := 2 ^ n.
+    Let B := comp_basis_to_pauli K cj ps po o n.
+    Let V := pauli_to_comp_basis K ps po o n.
+    Let tw := twopow n.
+
+    (* reconstruction: sum_a (B v)_a P_a[i][j] = 2^n v[|i,j)] *)
+    Lemma recon v i j : length v = N -> i < d -> j < d ->
+      bsum N (fun a => vget (mvmul K B v) a *! E n a i j) = tw *! vget v (vidx o i j).
+    Proof.
+      intros Hv Hi Hj. pose proof (wf_B o n Ho) as WB. pose proof (wf_V o n) as WV. fold N B in WB. fold N V in WV.
+      assert (Hx : vidx o i j < N) by (unfold N; rewrite (N_sq o n Ho); apply vidx_lt; rewrite Ho; assumption).
+      transitivity (bsum N (fun k => mget (mmul K V B) (vidx o i j) k *! vget v k)).
+      - transitivity (bsum N (fun a => bsum N (fun k => mget V (vidx o i j) a *! mget B a k *! vget v k))).
+        + apply (bsum_ext K). intros a Ha.
+          rewrite (vget_mvmul_wf K SR N N B v a WB Hv Ha). rewrite (bsum_mul_r K SR).
+          apply (bsum_ext K). intros k Hk. unfold V. rewrite (mget_V o n) by assumption.
+          rewrite (mget_Bv o n Ho) by assumption.
+          rewrite vun_vidx by (rewrite Ho; assumption). cbn [fst snd]. ring.
+        + rewrite (bsum_swap K SR). apply (bsum_ext K). intros k Hk.
+          rewrite (mget_mmul_wf K SR N N V B _ k WV (proj1 WB) Hx). symmetry. apply (bsum_mul_r K SR).
+      - unfold V, B. rewrite (basis_change_product' o n Ho). fold N tw.
+        rewrite (bsum_ext K N _ (fun k => if Nat.eqb k (vidx o i j) then tw *! vget v k else T0)).
+        + now rewrite (bsum_delta K SR) by exact Hx.
+        + intros k Hk. unfold smat. rewrite (mget_mk K) by assumption. rewrite (Nat.eqb_sym k).
+          destruct (Nat.eqb (vidx o i j) k); ring.
+    Qed.
+
+    (* Pauli coefficients of rho are B |rho) *)
+    Lemma coeffs_are_B_vec rho b : b < N ->
+      hs K cj d (pauli_mat K ps po n b) rho = vget (mvmul K B (vectorize K o rho)) b.
+    Proof.
+      intros Hb. pose proof (wf_B o n Ho) as WB. fold N B in WB.
+      rewrite (vget_mvmul_wf K SR N N B _ b WB) by (try exact Hb; rewrite (length_vectorize K); unfold N; now rewrite (N_sq o n Ho)).
+      unfold N. rewrite (N_sq o n Ho). rewrite (bsum_vidx K SR o). rewrite Ho. fold d. unfold hs.
+      apply (bsum_ext K). intros r Hr. apply (bsum_ext K). intros c Hc.
+      assert (Hk : vidx o r c < N) by (unfold N; rewrite (N_sq o n Ho); apply vidx_lt; rewrite Ho; assumption).
+      unfold B. rewrite (mget_B o n). rewrite (mget_Bv o n Ho) by assumption.
+      rewrite (vget_vectorize K) by (rewrite <- (N_sq o n Ho); exact Hk).
+      rewrite vun_vidx by (rewrite Ho; assumption). cbn [fst snd].
+      unfold pauli_mat. now rewrite (mget_mk K) by assumption.
+    Qed.
+
+    (* (B L V)(B u) = 2^n B (L u), entry by entry *)
+    Lemma BLV_B L u a : wf N N L -> length u = N -> a < N ->
+      vget (mvmul K (mmul3 K B L V) (mvmul K B u)) a = tw *! vget (mvmul K B (mvmul K L u)) a.
+    Proof.
+      intros HL Hu Ha. pose proof (wf_B o n Ho) as WB. pose proof (wf_V o n) as WV. pose proof (N_pos o n Ho) as HN.
+      fold N B in WB. fold N V in WV. fold N in HN.
+      assert (WBL : wf N N (mmul K B L)) by (now apply (wf_mmul K N N N)).
+      unfold mmul3. rewrite (mmul_assoc K SR N N N N B L V WB HL WV HN HN).
+      assert (WLV : wf N N (mmul K L V)) by (now apply (wf_mmul K N N N)).
+      assert (WBLV : wf N N (mmul K B (mmul K L V))) by (now apply (wf_mmul K N N N)).
+      assert (Lc : length (mvmul K B u) = N) by (rewrite length_mvmul; apply WB).
+      assert (Lw : length (mvmul K L u) = N) by (rewrite length_mvmul; apply HL).
+      rewrite (vget_mvmul_wf K SR N N _ _ a WBLV Lc Ha).
+      rewrite (vget_mvmul_wf K SR N N B _ a WB Lw Ha). rewrite (bsum_mul_l K SR).
+      (* expand everything to sums over the entries *)
+      transitivity (bsum N (fun x => mget B a x *! bsum N (fun y => mget L x y *! (tw *! vget u y)))).
+      - transitivity (bsum N (fun b => bsum N (fun x => mget B a x *! bsum N (fun y => mget L x y *! mget V y b)) *! vget (mvmul K B u) b)).
+        + apply (bsum_ext K). intros b Hb. f_equal.
+          rewrite (mget_mmul_wf K SR N N B _ a b WB (proj1 WLV) Ha). apply (bsum_ext K). intros x Hx. f_equal.
+          apply (mget_mmul_wf K SR N N L V x b HL (proj1 WV) Hx).
+        + transitivity (bsum N (fun x => bsum N (fun b => mget B a x *! bsum N (fun y => mget L x y *! mget V y b) *! vget (mvmul K B u) b))).
+          * rewrite (bsum_swap K SR). apply (bsum_ext K). intros b _. apply (bsum_mul_r K SR).
+          * apply (bsum_ext K). intros x Hx.
+            transitivity (mget B a x *! bsum N (fun y => mget L x y *! bsum N (fun b => mget V y b *! vget (mvmul K B u) b))).
+            -- rewrite (bsum_mul_l K SR).
+               transitivity (bsum N (fun b => bsum N (fun y => mget B a x *! (mget L x y *! (mget V y b *! vget (mvmul K B u) b))))).
+               ++ apply (bsum_ext K). intros b _. rewrite (bsum_mul_l K SR), (bsum_mul_r K SR).
+                  apply (bsum_ext K). intros y _. ring.
+               ++ rewrite (bsum_swap K SR). apply (bsum_ext K). intros y _.
+                  rewrite !(bsum_mul_l K SR). apply (bsum_ext K). intros b _. ring.
+            -- f_equal. apply (bsum_ext K). intros y Hy. f_equal.
+               (* sum_b V[y][b] (B u)_b = tw u_y : recon read backwards through V[y][b] = E b (vun y) *)
+               assert (Hy2 : y < odim o * odim o) by (rewrite <- (N_sq o n Ho); exact Hy).
+               destruct (vun_lt o y Hy2) as [Y1 Y2]. rewrite Ho in Y1, Y2.
+               transitivity (tw *! vget u (vidx o (fst (vun o y)) (snd (vun o y)))); [|now rewrite (vidx_vun o y Hy2)].
+               rewrite <- (recon u _ _ Hu Y1 Y2).
+               apply (bsum_ext K). intros b Hb. unfold V. rewrite (mget_V o n) by assumption.
+               rewrite (mget_Bv o n Ho) by assumption. ring.
+      - apply (bsum_ext K). intros x Hx.
+        rewrite (vget_mvmul_wf K SR N N L u x HL Hu Hx). rewrite !(bsum_mul_l K SR).
+        apply (bsum_ext K). intros y _. ring.
+    Qed.
+
+    (* ---- pauli_acts: the (un-normalised) Pauli-Liouville matrix of L acts as 4^n times L acts *)
+    Theorem pauli_acts L rho i j : wf N N L -> i < d -> j < d ->
+      mget (pauli_action K cj ps po n (liouville_to_pauli K cj ps po o n L) rho) i j
+      = tw *! tw *! mget (liouville_action K o L rho) i j.
+    Proof.
+      intros HL Hi Hj. unfold pauli_action, mlin. fold d. rewrite (mget_mk K) by assumption.
+      unfold paulis. fold N.
+      set (c := map (fun P => hs K cj d P rho) (tab N (pauli_mat K ps po n))).
+      set (R := liouville_to_pauli K cj ps po o n L).
+      assert (Lu : length (vectorize K o rho) = N) by (rewrite (length_vectorize K); unfold N; now rewrite (N_sq o n Ho)).
+      assert (Ec : c = mvmul K B (vectorize K o rho)).
+      { apply (vec_ext K N); [unfold c; now rewrite map_length, tab_length|rewrite length_mvmul; apply (wf_B o n Ho)|].
+        intros b Hb. unfold c, Alg.vget.
+        rewrite (nth_indep _ T0 (hs K cj d (pauli_mat K ps po n 0) rho)) by (now rewrite map_length, tab_length).
+        rewrite (map_nth (fun P => hs K cj d P rho)). rewrite nth_tab by exact Hb. now apply coeffs_are_B_vec. }
+      assert (LR : length (mvmul K R c) = N).
+      { rewrite length_mvmul. unfold R, liouville_to_pauli, mmul3, mmul. cbv zeta. rewrite !map_length.
+        exact (proj1 (wf_B o n Ho)). }
+      rewrite (lsum_combine_tab (mvmul K R c) N (pauli_mat K ps po n) _ LR). cbn [fst snd].
+      rewrite (bsum_ext K N _ (fun a => tw *! (vget (mvmul K B (mvmul K L (vectorize K o rho))) a *! E n a i j))).
+      - rewrite <- (bsum_mul_l K SR). rewrite recon; [|rewrite length_mvmul; apply HL|exact Hi|exact Hj].
+        unfold liouville_action, unvectorize. rewrite Ho. fold d. rewrite (mget_mk K) by assumption. ring.
+      - intros a Ha. unfold pauli_mat. rewrite (mget_mk K) by assumption.
+        change (nth a (mvmul K R c) T0) with (vget (mvmul K R c) a).
+        unfold R, liouville_to_pauli. cbv zeta. rewrite (dagger_B o n). fold B V. rewrite Ec.
+        rewrite (BLV_B L _ a HL Lu Ha). ring.
+    Qed.
+
+    (* ---- chi_ok: the (un-normalised) chi matrix built by kraus_to_chi acts as 4^n times the channel *)
+    Let w (Km : mat T) (a : nat) : T := vget (mvmul K B (vectorize K o Km)) a.
+
+    Lemma w_recon Km i r : i < d -> r < d -> bsum N (fun a => w Km a *! E n a i r) = tw *! mget Km i r.
+    Proof.
+      intros Hi Hr. unfold w. rewrite recon; [|rewrite (length_vectorize K); unfold N; now rewrite (N_sq o n Ho)|exact Hi|exact Hr].
+      now rewrite (vget_vectorize_idx K) by (rewrite Ho; assumption).
+    Qed.
+
+    Lemma chi_entry Ks a b : a < N -> b < N ->
+      mget (kraus_to_chi K cj ps po o n Ks) a b = lsum (map (fun Km => w Km a *! cj (w Km b)) Ks).
+    Proof.
+      intros Ha Hb. unfold kraus_to_chi. cbv zeta. fold N B. rewrite (mget_msum K) by assumption.
+      rewrite map_map. apply (lsum_map_ext K). intros Km _.
+      assert (Lw : length (mvmul K B (vectorize K o Km)) = N) by (rewrite length_mvmul; apply (wf_B o n Ho)).
+      rewrite (mget_outer K) by (unfold vconj; rewrite ?map_length, Lw; assumption).
+      now rewrite (vget_vconj K cj cj0).
+    Qed.
+
+    Lemma combine_seq_tab {A} (f : nat -> A) m : forall s0,
+      combine (seq s0 m) (map f (seq s0 m)) = map (fun a => (a, f a)) (seq s0 m).
+    Proof. induction m as [|m IH]; intros s0; [reflexivity|]. cbn [seq map combine]. now rewrite IH. Qed.
+
+    Lemma chi_Q Ks a s j : a < N -> s < d -> j < d ->
+      mget (mlin K d (nth a (kraus_to_chi K cj ps po o n Ks) []) (map (dagger K cj d d) (paulis K ps po n))) s j
+      = bsum N (fun b => mget (kraus_to_chi K cj ps po o n Ks) a b *! cj (E n b j s)).
+    Proof.
+      intros Ha Hs Hj. unfold mlin. rewrite (mget_mk K) by assumption.
+      unfold paulis. fold N. unfold tab at 1. rewrite map_map. fold (tab N (fun b => dagger K cj d d (pauli_mat K ps po n b))).
+      assert (Lrow : length (nth a (kraus_to_chi K cj ps po o n Ks) []) = N).
+      { apply (wf_row N N); [unfold kraus_to_chi; cbv zeta; fold N; apply wf_mk|exact Ha]. }
+      rewrite (lsum_combine_tab _ N _ _ Lrow). cbn [fst snd]. apply (bsum_ext K). intros b Hb.
+      unfold dagger. rewrite (mget_mk K) by assumption. unfold pauli_mat. now rewrite (mget_mk K) by assumption.
+    Qed.
+
+    Theorem chi_ok Ks rho i j : wf d d rho -> i < d -> j < d ->
+      mget (chi_action K cj ps po n (kraus_to_chi K cj ps po o n Ks) rho) i j
+      = tw *! tw *! kraus_entry K cj d Ks rho i j.
+    Proof.
+      intros Hrho Hi Hj. set (X := kraus_to_chi K cj ps po o n Ks).
+      assert (Hd : d <> 0) by (unfold d; pose proof (pow2_pos n); lia).
+      unfold chi_action. cbv zeta. fold d. rewrite (mget_msum K) by assumption. rewrite map_map.
+      unfold paulis. fold N. unfold tab. rewrite combine_seq_tab, map_map. cbn [fst snd].
+      rewrite <- (bsum_lsum K SR N (fun a => mget (mmul3 K (pauli_mat K ps po n a) rho
+                 (mlin K d (nth a X []) (map (dagger K cj d d) (map (pauli_mat K ps po n) (seq 0 N))))) i j)).
+      (* entries of the triple products *)
+      transitivity (bsum N (fun a => bsum d (fun s => bsum d (fun r =>
+                      E n a i r *! mget rho r s *! bsum N (fun b => mget X a b *! cj (E n b j s)))))).
+      { apply (bsum_ext K). intros a Ha. unfold mmul3.
+        assert (WP : wf d d (pauli_mat K ps po n a)) by apply wf_mk.
+        assert (WPr : wf d d (mmul K (pauli_mat K ps po n a) rho)) by (now apply (wf_mmul K d d d)).
+        rewrite (mget_mmul_wf K SR d d _ _ i j WPr) by (try exact Hi; unfold mlin, mk; apply tab_length).
+        apply (bsum_ext K). intros s Hs.
+        rewrite (mget_mmul_wf K SR d d _ rho i s WP (proj1 Hrho) Hi).
+        unfold X. change (map (pauli_mat K ps po n) (seq 0 N)) with (paulis K ps po n).
+        rewrite (chi_Q Ks a s j Ha Hs Hj). fold X. rewrite (bsum_mul_r K SR).
+        apply (bsum_ext K). intros r Hr. unfold pauli_mat. now rewrite (mget_mk K) by assumption. }
+      (* insert the entries of chi and collect the two reconstructions *)
+      transitivity (lsum (map (fun Km => bsum d (fun r => bsum d (fun s =>
+                      (tw *! mget Km i r) *! mget rho r s *! cj (tw *! mget Km j s)))) Ks)).
+      2:{ unfold kraus_entry. rewrite <- (lsum_map_mul_l K SR). apply (lsum_map_ext K). intros Km _.
+          rewrite (bsum_mul_l K SR). apply (bsum_ext K). intros r _. rewrite (bsum_mul_l K SR).
+          apply (bsum_ext K). intros s _. rewrite cj_mul. unfold tw. rewrite (cj_twopow n). ring. }
+      transitivity (bsum N (fun a => bsum d (fun s => bsum d (fun r =>
+                      lsum (map (fun Km => E n a i r *! mget rho r s *! (w Km a *! cj (tw *! mget Km j s))) Ks))))).
+      { apply (bsum_ext K). intros a Ha. apply (bsum_ext K). intros s Hs. apply (bsum_ext K). intros r Hr.
+        rewrite (lsum_map_mul_l K SR). f_equal.
+        rewrite (bsum_ext K N _ (fun b => lsum (map (fun Km => w Km a *! (cj (w Km b) *! cj (E n b j s))) Ks))).
+        - rewrite <- (lsum_bsum_swap K SR). apply (lsum_map_ext K). intros Km _.
+          rewrite <- (w_recon Km j s Hj Hs). rewrite (bsum_hom K cj N _ cj0 cj_add). rewrite (bsum_mul_l K SR).
+          apply (bsum_ext K). intros b _. now rewrite cj_mul.
+        - intros b Hb. unfold X. rewrite (chi_entry Ks a b Ha Hb). rewrite <- (lsum_map_mul_r K SR).
+          apply (lsum_map_ext K). intros Km _. ring. }
+      (* move the sum over the Kraus operators outside and the sum over a inside *)
+      rewrite (bsum_ext K N _ (fun a => lsum (map (fun Km => bsum d (fun s => bsum d (fun r =>
+                 E n a i r *! mget rho r s *! (w Km a *! cj (tw *! mget Km j s))))) Ks))).
+      2:{ intros a _. rewrite (lsum_bsum_swap K SR). apply (bsum_ext K). intros s _. now rewrite (lsum_bsum_swap K SR). }
+      rewrite <- (lsum_bsum_swap K SR). apply (lsum_map_ext K). intros Km _.
+      transitivity (bsum d (fun s => bsum d (fun r => bsum N (fun a =>
+                      E n a i r *! mget rho r s *! (w Km a *! cj (tw *! mget Km j s)))))).
+      { rewrite (bsum_swap K SR). apply (bsum_ext K). intros s _. apply (bsum_swap K SR). }
+      rewrite (bsum_swap K SR). apply (bsum_ext K). intros r Hr. apply (bsum_ext K). intros s Hs.
+      rewrite <- (w_recon Km i r Hi Hr). rewrite !(bsum_mul_r K SR). apply (bsum_ext K). intros a _. ring.
+    Qed.
+  End Acts.
+
+  (* ================= path independence over the table of conversion functions, every n *)
+  Section PathInd.
+    Variables (col : bool) (n : nat).
+    Let d := 2 ^ n.
+    Let N := 4 ^ n.
+    Let o := ord col (2 ^ n).
+    Let B := comp_basis_to_pauli K cj ps po o n.
+    Let V := pauli_to_comp_basis K ps po o n.
+    Let tw := twopow n.
+    Notation LP := (liouville_to_pauli K cj ps po o n).
+    Notation PL := (pauli_to_liouville K cj ps po o n).
+    Notation RS := (reshuffle K col (2 ^ n)).
+
+    Lemma Ho' : odim o = 2 ^ n.
+    Proof. unfold o. destruct col; reflexivity. Qed.
+    Lemma Ndd : N = 2 ^ n * 2 ^ n.
+    Proof. apply pow4_sq. Qed.
+    Lemma d_pos : 2 ^ n <> 0.
+    Proof. pose proof (pow2_pos n). lia. Qed.
+
+    (* entrywise scaling x . M . x  (x central) *)
+    Definition sc2 (x : T) (M : mat T) : mat T := mk N N (fun i j => x *! mget M i j *! x).
+    Lemma wf_sc2 x M : wf N N (sc2 x M).
+    Proof. apply wf_mk. Qed.
+    Lemma sc2_one M : wf N N M -> sc2 T1 M = M.
+    Proof.
+      intros HM. apply (mat_ext K N N); [apply wf_mk|exact HM|]. intros i j Hi Hj.
+      unfold sc2. rewrite (mget_mk K) by assumption. ring.
+    Qed.
+    Lemma sc2_sc2 x y M : sc2 x (sc2 y M) = sc2 (x *! y) M.
+    Proof. unfold sc2. apply mk_ext. intros i j Hi Hj. rewrite (mget_mk K) by assumption. ring. Qed.
+
+    Lemma wf_RS M : wf N N (RS M).
+    Proof. unfold N. rewrite pow4_sq. apply wf_mk. Qed.
+    Lemma wf_LP M : wf N N M -> wf N N (LP M).
+    Proof.
+      intros HM. pose proof (wf_B o n Ho') as WB. pose proof (N_pos o n Ho') as HN.
+      unfold liouville_to_pauli, mmul3. cbv zeta. rewrite (dagger_B o n).
+      apply (wf_mmul K N N N); [apply (wf_mmul K N N N); assumption|apply (wf_V o n)|exact HN].
+    Qed.
+    Lemma wf_PL M : wf N N M -> wf N N (PL M).
+    Proof.
+      intros HM. pose proof (wf_B o n Ho') as WB. pose proof (N_pos o n Ho') as HN.
+      unfold pauli_to_liouville, mmul3. cbv zeta. rewrite (dagger_V o n Ho').
+      apply (wf_mmul K N N N); [apply (wf_mmul K N N N); [apply (wf_V o n)|assumption|assumption]|exact WB|exact HN].
+    Qed.
+
+    (* A (x M x) C = x (A M C) x *)
+    Lemma mmul3_sc2 A C M x a b : wf N N A -> wf N N M -> wf N N C -> a < N -> b < N ->
+      mget (mmul3 K A (sc2 x M) C) a b = x *! mget (mmul3 K A M C) a b *! x.
+    Proof.
+      intros HA HM HC Ha Hb. pose proof (N_pos o n Ho') as HN. unfold mmul3.
+      assert (W1 : wf N N (mmul K A (sc2 x M))) by (apply (wf_mmul K N N N); [exact HA|apply wf_sc2|exact HN]).
+      assert (W2 : wf N N (mmul K A M)) by (now apply (wf_mmul K N N N)).
+      rewrite (mget_mmul_wf K SR N N _ C a b W1 (proj1 HC) Ha).
+      rewrite (mget_mmul_wf K SR N N _ C a b W2 (proj1 HC) Ha).
+      rewrite (bsum_mul_l K SR N x (fun k => mget (mmul K A M) a k *! mget C k b)). rewrite (bsum_mul_r K SR). apply (bsum_ext K). intros l Hl.
+      rewrite (mget_mmul_wf K SR N N A _ a l HA (proj1 (wf_sc2 x M)) Ha).
+      rewrite (mget_mmul_wf K SR N N A M a l HA (proj1 HM) Ha).
+      assert (E : bsum N (fun k => mget A a k *! mget (sc2 x M) k l) = x *! bsum N (fun k => mget A a k *! mget M k l) *! x).
+      { rewrite (bsum_mul_l K SR), (bsum_mul_r K SR). apply (bsum_ext K). intros k Hk.
+        unfold sc2. rewrite (mget_mk K) by assumption. ring. }
+      rewrite E. ring.
+    Qed.
+
+    Lemma LP_sc2 x M : wf N N M -> LP (sc2 x M) = sc2 x (LP M).
+    Proof.
+      intros HM. apply (mat_ext K N N); [apply wf_LP, wf_sc2|apply wf_sc2|]. intros a b Ha Hb.
+      unfold sc2 at 2. rewrite (mget_mk K) by assumption.
+      unfold liouville_to_pauli. cbv zeta. rewrite (dagger_B o n).
+      apply mmul3_sc2; [apply (wf_B o n Ho')|exact HM|apply (wf_V o n)|exact Ha|exact Hb].
+    Qed.
+    Lemma PL_sc2 x M : wf N N M -> PL (sc2 x M) = sc2 x (PL M).
+    Proof.
+      intros HM. apply (mat_ext K N N); [apply wf_PL, wf_sc2|apply wf_sc2|]. intros a b Ha Hb.
+      unfold sc2 at 2. rewrite (mget_mk K) by assumption.
+      unfold pauli_to_liouville. cbv zeta. rewrite (dagger_V o n Ho').
+      apply mmul3_sc2; [apply (wf_V o n)|exact HM|apply (wf_B o n Ho')|exact Ha|exact Hb].
+    Qed.
+    Lemma RS_sc2 x M : RS (sc2 x M) = sc2 x (RS M).
+    Proof.
+      apply (mat_ext K N N); [apply wf_RS|apply wf_sc2|]. intros i j Hi Hj.
+      unfold sc2 at 2. rewrite (mget_mk K) by assumption.
+      assert (Hi' : i < 2 ^ n * 2 ^ n) by (rewrite <- Ndd; exact Hi).
+      assert (Hj' : j < 2 ^ n * 2 ^ n) by (rewrite <- Ndd; exact Hj).
+      rewrite !(mget_reshuffle K) by assumption.
+      pose proof (div_lt_prod i _ _ Hi'). pose proof (mod_lt_prod i _ _ Hi').
+      pose proof (div_lt_prod j _ _ Hj'). pose proof (mod_lt_prod j _ _ Hj').
+      destruct col; unfold sc2; rewrite (mget_mk K) by (unfold N; rewrite pow4_sq; apply pair_lt; assumption); reflexivity.
+    Qed.
+
+    (* PL (LP M) = 2^n M 2^n  as matrices *)
+    Lemma PL_LP M : wf N N M -> PL (LP M) = sc2 tw M.
+    Proof.
+      intros HM. apply (mat_ext K N N); [apply wf_PL, wf_LP, HM|apply wf_sc2|]. intros a b Ha Hb.
+      unfold sc2. rewrite (mget_mk K) by assumption. now apply (from_pauli_to_pauli o n Ho').
+    Qed.
+
+    Section Channel.
+      Variable Ks : list (mat T).
+      Let C := kraus_to_choi K cj o Ks.
+      Let L := kraus_to_liouville K cj col (2 ^ n) Ks.
+      Let P := kraus_to_pauli K cj ps po col n Ks.
+      Let X := kraus_to_chi K cj ps po o n Ks.
+
+      Lemma wf_C : wf N N C.
+      Proof. unfold C, kraus_to_choi. cbv zeta. rewrite Ho'. unfold N. rewrite pow4_sq. apply wf_mk. Qed.
+      Lemma L_is : L = RS C.
+      Proof. reflexivity. Qed.
+      Lemma P_is : P = LP L.
+      Proof. reflexivity. Qed.
+      Lemma wf_L : wf N N L.
+      Proof. rewrite L_is. apply wf_RS. Qed.
+      Lemma RS_L : RS L = C.
+      Proof. rewrite L_is. apply (reshuffle_involutive K). rewrite <- Ndd. exact wf_C. Qed.
+
+      (* the chi matrix is the basis change of the Choi matrix: B (sum |K)(K|) B^dagger = sum |BK)(BK| *)
+      Lemma X_is : X = LP C.
+      Proof.
+        pose proof (wf_B o n Ho') as WB. pose proof (wf_V o n) as WV. pose proof (N_pos o n Ho') as HN.
+        apply (mat_ext K N N); [unfold X, kraus_to_chi; cbv zeta; apply wf_mk|apply wf_LP, wf_C|].
+        intros a b Ha Hb. unfold X. rewrite (chi_entry o n Ho' Ks a b Ha Hb).
+        unfold liouville_to_pauli, mmul3. cbv zeta. rewrite (dagger_B o n).
+        assert (WBC : wf N N (mmul K (comp_basis_to_pauli K cj ps po o n) C)) by (apply (wf_mmul K N N N); [exact WB|exact wf_C|exact HN]).
+        rewrite (mget_mmul_wf K SR N N _ _ a b WBC (proj1 WV) Ha).
+        set (vK := fun Km k => vget (vectorize K o Km) k).
+        transitivity (lsum (map (fun Km => bsum N (fun l => bsum N (fun k =>
+                        mget (comp_basis_to_pauli K cj ps po o n) a k *! vK Km k *! cj (vK Km l)
+                        *! cj (mget (comp_basis_to_pauli K cj ps po o n) b l)))) Ks)).
+        - apply (lsum_map_ext K). intros Km _.
+          assert (Lv : length (vectorize K o Km) = N) by (rewrite (length_vectorize K); unfold N; now rewrite (N_sq o n Ho')).
+          rewrite !(vget_mvmul_wf K SR N N _ _ _ WB Lv) by assumption.
+          rewrite (bsum_hom K cj N _ cj0 cj_add). rewrite (bsum_mul_l K SR).
+          apply (bsum_ext K). intros l Hl. rewrite (bsum_mul_r K SR). apply (bsum_ext K). intros k Hk.
+          rewrite cj_mul. unfold vK. ring.
+        - rewrite (lsum_bsum_swap K SR). apply (bsum_ext K). intros l Hl.
+          rewrite (mget_mmul_wf K SR N N _ C a l WB (proj1 wf_C) Ha).
+          rewrite (lsum_bsum_swap K SR). rewrite (bsum_mul_r K SR). apply (bsum_ext K). intros k Hk.
+          assert (Hk' : k < odim o * odim o) by (rewrite <- (N_sq o n Ho'); exact Hk).
+          assert (Hl' : l < odim o * odim o) by (rewrite <- (N_sq o n Ho'); exact Hl).
+          unfold C. rewrite (mget_kraus_to_choi K cj cj0 o Ks k l Hk' Hl').
+          rewrite (mget_V o n) by assumption. 
+          replace (mget (pauli_basis_vec K ps po o n) b l) with (cj (mget (comp_basis_to_pauli K cj ps po o n) b l))
+            by (rewrite (mget_B o n); apply cj_cj).
+          rewrite <- (lsum_map_mul_l K SR), <- (lsum_map_mul_r K SR). apply (lsum_map_ext K). intros Km _.
+          unfold vK. rewrite !(vget_vectorize K) by assumption. ring.
+      Qed.
+      Lemma wf_X : wf N N X.
+      Proof. rewrite X_is. apply wf_LP, wf_C. Qed.
+      Lemma wf_P : wf N N P.
+      Proof. rewrite P_is. apply wf_LP, wf_L. Qed.
+
+      Definition fac (a b : rep) : T := if rep_eqb a b then T1 else if leaves_pauli a then tw else T1.
+      Notation from := (from_kraus_rep K cj ps po col n).
+      Notation conv := (conv_rep K cj ps po col n).
+
+      Lemma wf_from r : wf N N (from r Ks).
+      Proof. destruct r; [exact wf_C|exact wf_L|exact wf_P|exact wf_X]. Qed.
+
+      (* every function of the table, applied to the representation obtained from the Kraus set, gives
+         the representation the direct conversion gives -- times 2^n . 2^n when it leaves the un-normalised Pauli basis *)
+      Theorem path_pair a b : conv a b (from a Ks) = sc2 (fac a b) (from b Ks).
+      Proof.
+        destruct a, b; unfold fac; cbn [rep_eqb leaves_pauli from_kraus_rep conv_rep];
+          fold o; fold C L P X; rewrite ?sc2_one by (first [exact wf_C|exact wf_L|exact wf_P|exact wf_X]);
+          try reflexivity.
+        - (* choi -> chi *) unfold choi_to_chi. now rewrite X_is.
+        - (* liouville -> choi *) unfold liouville_to_choi. apply RS_L.
+        - (* liouville -> chi *) unfold liouville_to_chi, liouville_to_choi. fold o. now rewrite RS_L, X_is.
+        - (* pauli -> choi *) unfold pauli_to_choi, liouville_to_choi. fold o. rewrite P_is, (PL_LP L wf_L), RS_sc2. now rewrite RS_L.
+        - (* pauli -> liouville *) rewrite P_is. apply (PL_LP L wf_L).
+        - (* pauli -> chi *) unfold pauli_to_chi, liouville_to_chi, liouville_to_choi. fold o.
+          rewrite P_is, (PL_LP L wf_L), RS_sc2, RS_L, (LP_sc2 tw C wf_C). now rewrite X_is.
+        - (* chi -> choi *) unfold chi_to_choi. rewrite X_is. apply (PL_LP C wf_C).
+        - (* chi -> liouville *) unfold chi_to_liouville, choi_to_liouville. fold o. rewrite X_is, (PL_LP C wf_C), RS_sc2. reflexivity.
+        - (* chi -> pauli *) unfold chi_to_pauli, choi_to_pauli, choi_to_liouville. fold o.
+          rewrite X_is, (PL_LP C wf_C), RS_sc2. rewrite <- L_is. rewrite (LP_sc2 tw L wf_L). reflexivity.
+      Qed.
+
+      (* every function of the table is linear in the scaling *)
+      Lemma conv_sc2 a b x M : wf N N M -> conv a b (sc2 x M) = sc2 x (conv a b M).
+      Proof.
+        intros HM.
+        assert (E1 : LP (RS (sc2 x M)) = sc2 x (LP (RS M))) by (rewrite RS_sc2; apply LP_sc2, wf_RS).
+        assert (E2 : RS (PL (sc2 x M)) = sc2 x (RS (PL M))) by (rewrite (PL_sc2 x M HM); apply RS_sc2).
+        assert (E3 : LP (RS (PL (sc2 x M))) = sc2 x (LP (RS (PL M)))) by (rewrite E2; apply LP_sc2, wf_RS).
+        destruct a, b; cbn [conv_rep]; try reflexivity;
+          unfold choi_to_liouville, choi_to_pauli, choi_to_chi, liouville_to_chi, pauli_to_choi,
+                 pauli_to_chi, chi_to_choi, chi_to_liouville, chi_to_pauli, liouville_to_choi, choi_to_liouville; fold o;
+          first [ exact E1 | exact E2 | exact E3 | apply RS_sc2 | apply (LP_sc2 x M HM) | apply (PL_sc2 x M HM) ].
+      Qed.
+
+      Lemma wf_conv a b M : wf N N M -> wf N N (conv a b M).
+      Proof.
+        intros HM. destruct a, b; cbn [conv_rep]; try exact HM;
+          unfold choi_to_liouville, liouville_to_choi, choi_to_pauli, choi_to_chi, liouville_to_chi, pauli_to_choi,
+                 pauli_to_chi, chi_to_choi, chi_to_liouville, chi_to_pauli, liouville_to_choi, choi_to_liouville; fold o;
+          repeat first [apply wf_RS | apply wf_LP | apply wf_PL | exact HM].
+      Qed.
+
+      Fixpoint path_fac (a : rep) (path : list rep) : T :=
+        match path with [] => T1 | b :: rest => fac a b *! path_fac b rest end.
+
+      (* path independence: along ANY path through the table, starting from the representation of the
+         Kraus set, the result is the direct conversion to the end point times the product of the factors *)
+      Theorem path_independence path : forall a x,
+        run_path K cj ps po col n a path (sc2 x (from a Ks)) = sc2 (x *! path_fac a path) (from (path_end a path) Ks).
+      Proof.
+        induction path as [|b rest IH]; intros a x; cbn [run_path path_end path_fac].
+        - f_equal. ring.
+        - rewrite (conv_sc2 a b x _ (wf_from a)), path_pair, sc2_sc2, IH. f_equal. ring.
+      Qed.
+    End Channel.
+  End PathInd.
 End Pauli.
